@@ -11,6 +11,18 @@ TRUST = ('TLC/SANY (and Apalache where named), the JSON bridge between TLC and t
          'guards the bridge. ')
 
 CHECKS = {
+    'C03': dict(
+        technique='TLA+ decision function over abstract contents (spec/Detect.tla: Match per inspector, FormatsOf, Decide) with the clauses Exclusive / MultiIsError / RawOnlyAlone / AllowedOnly / Total checked by TLC on every content x allowed_formats; every content realised as bytes and read through the real InspectWrapper under six read sizes with the decision sampled after every read (no-revision) and after close, plus detect_file_format',
+        category='model_checking',
+        text='TLC enumerates 20k abstract contents (every feasible subset of the nine signatures and the FAT look-alike on four '
+             'backgrounds at 22 lengths straddling every decision point, and a family of allowed_formats sets) and checks the '
+             'clauses of the property on the decision function itself. Each content is built and read through the real wrapper '
+             'with read sizes 1/17/512/4096/64K/1M; format/formats after close and detect_file_format must equal the specification, '
+             'a decision reported mid-stream must never change afterwards, and no exception other than ImageFormatError may escape; '
+             'arbitrary mutated/polyglot/unstructured files are checked for totality and no-revision.',
+        design_ref='6/C03',
+        note=TRUST + 'format_match semantics are modelled as shipped (prefix tests for VHD/VHDX/LUKS/VMDK; errored inspectors are '
+             'still consulted - F4/O6).'),
     'C06': dict(
         technique='TLA+ model of the pipe (spec/InspectWrapper.tla: StartRead / Feed(i) in any order / EndRead / Exhaust / Close, per-inspector fault scripts) model-checked with TLC; every script replayed on the real InspectWrapper with stub inspectors against the set of outcomes the model admits; real-inspector runs with injected faults recorded at the same grain and validated by Trace_InspectWrapper',
         category='model_checking',
